@@ -14,6 +14,8 @@ Behaviours:
  * SNMPv3: engine discovery, USM authentication (HMAC-MD5/SHA-96), privacy through the
    harness's keyed stream plug-in, time window of 150 s on a virtual clock, Reports.
 """
+import bisect
+
 from harness import indep_ber as B
 from harness import indep_usm as U
 
@@ -57,6 +59,7 @@ class Agent:
         self.resp_log = []  # response fields as sent (after fault hooks), one per answered request
         self.kwargs_log = []
         self.value_of = dict(self.db)
+        self._keys = [o for o, _ in self.db]
 
     # ------------------------------------------------------------------ semantics
     def _val_for(self, oid):
@@ -70,9 +73,10 @@ class Agent:
             if nxt is None:
                 return (list(oid), EOM)
             return (list(nxt), self._val_for(nxt))
-        for o, v in self.db:
-            if o > oid:
-                return (list(o), v)
+        i = bisect.bisect_right(self._keys, oid)
+        if i < len(self.db):
+            o, v = self.db[i]
+            return (list(o), v)
         return (list(oid), EOM)
 
     def get(self, oid):
